@@ -7,6 +7,11 @@
 (*        TRACE_DEV), unless the specification abstains (Unmodelled)         *)
 (*   ev = "meta": two renderings of one logical file and both outcomes:     *)
 (*        each must conform, and the outcomes must be equal                  *)
+(*        each must conform, and the outcomes must be equal; both were read   *)
+(*        under one configuration (ai: allow_invalid) through construction    *)
+(*        routes of their own; pa / pb: what zonetree::parsed made of them    *)
+(*   every read: offs, Zonefile::current_offset() before the first and after *)
+(*        every call -- it only moves forward and stays within the buffer     *)
 (*   ev = "hostile": an input whose size is the attack; outcome class only  *)
 EXTENDS ZoneFile, TLC, Json, IOUtils
 
@@ -19,15 +24,18 @@ Open == IF Len(Rec) >= 1 /\ Rec[1].ev = "devs" THEN {Rec[1].open[i] : i \in 1..L
 
 IsEv(e) == l <= Len(Rec) /\ Rec[l].ev = e /\ l' = l + 1
 
-Ideal(text, origin, class) == ReadAll(text, origin, class, {})
+\* class checking is on unless the event says allow_invalid
+Rv(e) == IF "ai" \in DOMAIN e THEN ~e.ai ELSE TRUE
+IdealV(text, origin, class, v) == ReadAllV(text, origin, class, v, {})
+Ideal(text, origin, class) == IdealV(text, origin, class, TRUE)
 
 \* the recorded outcome is explained by the specification
-Explained(text, origin, class, res) ==
-  LET o == Ideal(text, origin, class) IN
+ExplainedV(text, origin, class, v, res) ==
+  LET o == IdealV(text, origin, class, v) IN
   \/ o = Unmodelled
   \/ o = res
   \/ \E dv \in (SUBSET (Open \cap AllDevs)) \ {{}} :
-        LET d == ReadAll(text, origin, class, dv)
+        LET d == ReadAllV(text, origin, class, v, dv)
         IN /\ (d = Unmodelled \/ d = res)
            /\ PrintT("TRACE_DEV " \o ToJson([devs |-> dv, text |-> text, res |-> res]))
 
@@ -35,15 +43,40 @@ TInit == l = 1
 
 T_Devs == IsEv("devs")
 
+Explained(text, origin, class, res) == ExplainedV(text, origin, class, TRUE, res)
+
+\* current_offset(): never backwards, never beyond the buffer (the text and
+\* the spare octet in front of it)
+OffsetsOk(offs, text) ==
+  /\ \A i \in 1..(Len(offs) - 1) : offs[i] <= offs[i + 1]
+  /\ \A i \in 1..Len(offs) : offs[i] >= 0 /\ offs[i] <= Len(text) + 1
+
+\* what zonetree::parsed made of a text, against the classification of the
+\* entries the reader returned for it
+ParsedExplained(p, res) ==
+  \/ "panic" \in DOMAIN res                     \* (the reader's own panic is judged above)
+  \/ LET Fits(e) == /\ "ok" \in DOMAIN p /\ p.ok = e.ok /\ p.errors = e.errors
+                     /\ e.ok => /\ p.apex = e.apex /\ p.class = e.class
+                                 /\ IF e.builder = "any" THEN p.builder \in {"ok", "fail"} ELSE p.builder = e.builder
+     IN \/ Fits(ParsedOf(res))
+        \/ /\ "D_parsed_no_apex_unwrap" \in Open
+           /\ Fits(ParsedOfD(res, {"D_parsed_no_apex_unwrap"}))
+           /\ PrintT("TRACE_DEV " \o ToJson([devs |-> {"D_parsed_no_apex_unwrap"}, text |-> <<>>, res |-> p]))
+
 T_Read == /\ IsEv("read")
-          /\ Explained(Rec[l].text, Rec[l].origin, Rec[l].class, Rec[l].res)
+          /\ ExplainedV(Rec[l].text, Rec[l].origin, Rec[l].class, Rv(Rec[l]), Rec[l].res)
+          /\ "offs" \in DOMAIN Rec[l] => OffsetsOk(Rec[l].offs, Rec[l].text)
 
 T_Meta == /\ IsEv("meta")
-          /\ Explained(Rec[l].a, Rec[l].origin, Rec[l].class, Rec[l].ra)
-          /\ Explained(Rec[l].b, Rec[l].origin, Rec[l].class, Rec[l].rb)
+          /\ ExplainedV(Rec[l].a, Rec[l].origin, Rec[l].class, Rv(Rec[l]), Rec[l].ra)
+          /\ ExplainedV(Rec[l].b, Rec[l].origin, Rec[l].class, Rv(Rec[l]), Rec[l].rb)
           /\ \/ Rec[l].ra = Rec[l].rb                       \* the property itself
-             \/ Ideal(Rec[l].a, Rec[l].origin, Rec[l].class) = Unmodelled
-             \/ Ideal(Rec[l].b, Rec[l].origin, Rec[l].class) = Unmodelled
+             \/ IdealV(Rec[l].a, Rec[l].origin, Rec[l].class, Rv(Rec[l])) = Unmodelled
+             \/ IdealV(Rec[l].b, Rec[l].origin, Rec[l].class, Rv(Rec[l])) = Unmodelled
+          \* (vacuity guard of the driver: how often the specification abstained)
+          /\ IdealV(Rec[l].a, Rec[l].origin, Rec[l].class, Rv(Rec[l])) = Unmodelled => PrintT("TRACE_ABSTAINED {\"ev\":\"meta\"}")
+          /\ "offs_a" \in DOMAIN Rec[l] => OffsetsOk(Rec[l].offs_a, Rec[l].a) /\ OffsetsOk(Rec[l].offs_b, Rec[l].b)
+          /\ "pa" \in DOMAIN Rec[l] => ParsedExplained(Rec[l].pa, Rec[l].ra) /\ ParsedExplained(Rec[l].pb, Rec[l].rb)
 
 \* hostile sizes (names of 70000 octets, 1 MiB lines, 10^5 parentheses ...):
 \* only totality is stated -- entries or an error, never a panic
